@@ -414,5 +414,82 @@ def _run_history(item, ctx):
     expect = 2 ** len(getattr(probe, "groups", [])) if hasattr(probe, "pos_groups") else 1
     if res["states"] > expect:
         ctx.fail("queries-leave-no-hidden-state", case, observed=res["states"], expected=f"<= {expect} reachable states")
-    ctx.sample({"kind": "history", "object": name, "events": len(events), "result": res})
+    # ---- mutation histories: the object is changed through its public attributes *after* every query has
+    # run once (all lazily filled state exists); every query must then answer for the new state, i.e. exactly
+    # like an object that was brought into that state without ever having been queried.
+    nmut = 0
+    for mname, mutate in _mutations(probe, snap):
+        ref_obj = make()
+        mutate(ref_obj)
+        used = make()
+        for _, fn in events:
+            opgraph.run_event(fn, used, make_env())
+        mutate(used)
+        for ename, fn in events:
+            want = opgraph.canon(opgraph.run_event(fn, ref_obj, make_env()))
+            got = opgraph.canon(opgraph.run_event(fn, used, make_env()))
+            ctx.tick(2)
+            nmut += 1
+            if got != want:
+                ctx.fail("no-stale-state-after-attribute-update", dict(case, mutation=mname, query=ename), observed=got,
+                         expected=want)
+                break
+    ctx.nontrivial(nmut)
+    ctx.sample({"kind": "history", "object": name, "events": len(events), "result": res,
+                "mutations": [m for m, _ in _mutations(probe, snap)]})
     return None
+
+
+def _mutations(probe, snap):
+    """[(name, fn(obj))]: updates of an object through its public attributes."""
+    out = []
+    if snap is opgraph.snapshot_cm:
+        def scale(o):
+            o.matrix[...] = o.matrix[..., ::-1, :] * 2 + 1
+
+        def reassign(o):
+            o.matrix = (o.matrix * 3 + 1).copy()
+
+        return [("matrix updated in place", scale), ("matrix reassigned", reassign)]
+    if hasattr(probe, "pos_groups"):
+        # GroupScores documents a per-group cache that is filled once; updating its arrays afterwards is
+        # not supported by the class and not claimed by any property
+        return []
+    is_fraud = hasattr(probe, "genuines")
+
+    def new_scores(o):
+        if is_fraud:
+            o.genuines = np.sort(1.0 - np.asarray(o.genuines, dtype=float) * 0.5)[::1]
+            o.frauds = np.sort(np.asarray(o.frauds, dtype=float) * 0.25)
+        else:
+            # increasing affine maps keep the arrays sorted and the group labels aligned
+            o.pos = np.asarray(o.pos, dtype=float) * 1.5 + 2.0
+            o.neg = np.asarray(o.neg, dtype=float) * 0.5 - 1.0
+
+    out.append(("scores reassigned (same sizes, other range)", new_scores))
+
+    def in_place(o):
+        if o.pos.dtype.kind == "f":
+            o.pos[...] = o.pos * 2.0 + 0.125 if not is_fraud else o.pos * 0.5
+        else:
+            o.pos = o.pos * 2 + 1
+        if o.neg.dtype.kind == "f":
+            o.neg[...] = o.neg - 3.0 if not is_fraud else o.neg * 0.5
+        else:
+            o.neg = o.neg - 3
+
+    out.append(("scores updated in place", in_place))
+    if not hasattr(probe, "pos_groups"):
+        def easy(o):
+            o.nb_easy_pos = o.nb_easy_pos + 3
+            o.nb_easy_neg = 0 if o.nb_easy_neg else 5
+
+        out.append(("easy counts reassigned", easy))
+
+        def flags(o):
+            from score_analysis.scores import BinaryLabel
+
+            o.equal_class = BinaryLabel.neg if o.equal_class == BinaryLabel.pos else BinaryLabel.pos
+
+        out.append(("equal_class flipped", flags))
+    return out
